@@ -31,6 +31,9 @@
 #ifndef VP_LV
 #define VP_LV 1
 #endif
+#define VP_CAT(a, b) a##b
+#define VP_CAT2(a, b) VP_CAT(a, b)
+#define VP_NLV VP_CAT2(VP_N, VP_LV)   /* number of files in level VP_LV, usable in #if */
 
 /* brute force: does some file of `level` meet the user-key range */
 static int
@@ -71,8 +74,12 @@ harness(void) {
       if (ik_cmp(f_lu[base + f], f_lt[base + f], tu, tt) >= 0) want = f;
     VP_ASSERT(got == want, "find_file == first file whose largest key >= target (linear reference)");
     if (want == n) VP_WITNESS("past-all-files");
-    if (want < n && n > 1 && want > 0) VP_WITNESS("inner-file");
+#if VP_NLV > 1
+    if (want < n && want > 0) VP_WITNESS("inner-file");
+#endif
+#if VP_NLV > 0
     if (want == 0) VP_WITNESS("first-file");
+#endif
   }
 #elif VP_MODE == 1
   {
@@ -89,8 +96,10 @@ harness(void) {
     want = ref_overlap(VP_LV, has_a, a, has_b, b);
     VP_ASSERT((got1 != 0) == want, "some_file_overlaps_range == brute force over the files of the level");
     VP_ASSERT((got2 != 0) == want, "ldb_version_overlap_in_level == brute force over the files of the level");
+#if VP_NLV > 0
     if (want && has_a && has_b) VP_WITNESS("overlap-closed-range");
-    if (!want && has_a && has_b && n > 0) VP_WITNESS("no-overlap-closed-range");
+    if (!want && has_a && has_b) VP_WITNESS("no-overlap-closed-range");
+#endif
     if (!has_a) VP_WITNESS("open-begin");
     if (!has_b) VP_WITNESS("open-end");
   }
@@ -170,9 +179,11 @@ harness(void) {
                   "level 0: no file left behind meets the user-key range of an input (closure)");
     }
 #endif
-    if (out.length == 0 && n > 0) VP_WITNESS("none");
-    if (out.length == (size_t)n && n > 1) VP_WITNESS("all");
+    if (out.length == 0) VP_WITNESS("none");
+#if VP_NLV > 1
+    if (out.length == (size_t)n) VP_WITNESS("all");
     if (out.length > 0 && out.length < (size_t)n) VP_WITNESS("some");
+#endif
   }
 #endif
 }
